@@ -158,6 +158,8 @@ def type_compat_lenient(norm, rt):
         return True       # default method of a trait (`&Self`) / generic parameter (T, U, V, T0): any receiver
     if a.startswith('impl '):
         return True       # `impl Trait` argument
+    if (a.startswith('fn(') or a.startswith('for<')) and (b == 'fn' or b.startswith('closure@')):
+        return True       # function-pointer parameter receiving a function item / capture-less closure
     if any(a in g and b in g for g in _LENIENT_EQ):
         return True
     return type_compat(a, b)
